@@ -1419,8 +1419,11 @@ func (up4 *UP4) modifyUP4ForwardingConfiguration(pdrs []pdr, allFARs []far, qers
 
 		// only a FAR that forwards needs its tunnel peer: one that buffers or drops may still name
 		// the tunnel it will use again (idle UE), but holds no reference on the peer meanwhile
+		// A DELETE addresses its entries by key alone: removing a session must not depend on the
+		// tunnel peer of its FAR still being registered (a modification that was rejected at its
+		// clean-up stage may have removed it already).
 		tunnelPeerID, exists := up4.getGTPTunnelPeer(tunnelParameters)
-		if !exists && FAR.tunnelTEID != 0 && FAR.Forwards() {
+		if !exists && FAR.tunnelTEID != 0 && FAR.Forwards() && methodType != p4.Update_DELETE {
 			return ErrNotFoundWithParam("allocated GTP tunnel peer ID", "tunnel params", tunnelParameters)
 		}
 
